@@ -508,7 +508,8 @@ func (t *Trie) delete(n trienode.Node, prefix, key *Path) (trienode.Node, bool, 
 		// containing the other child as the child
 		return &trienode.EdgeNode{Path: bitPrefix, Child: n.Children[other], Flags: trienode.NewNodeFlag()}, true, nil
 	case *trienode.ValueNode:
-		t.nodeTracer.onDelete(key)
+		// The value node lives at the full path walked so far; key is what remains (empty here).
+		t.nodeTracer.onDelete(new(Path).Append(prefix, key))
 		return nil, true, nil
 	case *trienode.HashNode:
 		child, err := t.resolveNode(n, *prefix)
